@@ -732,6 +732,9 @@ Definition dec_schm (h : hdr) : parser (leaf * rsvT) :=
   else pret (LSchm (vf_version vf) (vf_flags vf) st sv [], []).
 
 (* ---------------------------------------------------------------- senc (kept raw by DecodeSencSR) *)
+(* EncodeSWNoHdr writes rawData back when the box is readButNotParsed and, since repo commit 954ff09, when it was
+   decoded (readBoxSize > 0) and has no samples *)
+Definition senc_keeps (np : bool) (cnt rs : N) : bool := np || ((cnt =? 0) && (0 <? rs)).
 Definition dec_senc (h : hdr) : parser (leaf * rsvT) :=
   if h_size h <? 16 then pfail else
   pdo vf <- rd 4 ;;
@@ -1291,10 +1294,10 @@ Definition body_leaf (l : leaf) (r : rsvT) : res (list N) :=
   | LCslg v f a b c d e =>
       let w := if v =? 0 then 4%nat else 8%nat in
       Ok (be_enc 4 (vf_join v f) ++ be_enc w a ++ be_enc w b ++ be_enc w c ++ be_enc w d ++ be_enc w e)
-  | LSenc f cnt raw _ np =>
+  | LSenc f cnt raw rs np =>
       (* not readButNotParsed: perSampleIVSize is 0; with the sub-sample flag the loop indexes the empty SubSamples *)
       if negb np && has f 2 && (0 <? cnt) then Panic
-      else Ok (be_enc 4 (vf_join 0 f) ++ be_enc 4 cnt ++ (if np then raw else []))
+      else Ok (be_enc 4 (vf_join 0 f) ++ be_enc 4 cnt ++ (if senc_keeps np cnt rs then raw else []))
   | LEmsg v f ts pt du id sc va d =>
       Ok (be_enc 4 (vf_join v f) ++
           (if v =? 1 then be_enc 4 ts ++ be_enc 8 pt ++ be_enc 4 du ++ be_enc 4 id ++ sc ++ [0] ++ va ++ [0]
@@ -1325,9 +1328,9 @@ Definition body_leaf (l : leaf) (r : rsvT) : res (list N) :=
       (* for i := byte(0); i < t.FragmentCount; i++ { ...FragmentAbsoluteTimes[i]... } *)
       if lenN es <? cnt then Panic
       else Ok (uuid_tfrf ++ be_enc 4 (vf_join v f) ++ be_enc 1 cnt ++ flat_map (wr_pairw (uuid_w v)) (firstn (N.to_nat cnt) es))
-  | LUuidSenc f cnt raw _ np =>      (* b.Senc.EncodeSWNoHdr *)
+  | LUuidSenc f cnt raw rs np =>      (* b.Senc.EncodeSWNoHdr *)
       if negb np && has f 2 && (0 <? cnt) then Panic
-      else Ok (uuid_piff ++ be_enc 4 (vf_join 0 f) ++ be_enc 4 cnt ++ (if np then raw else []))
+      else Ok (uuid_piff ++ be_enc 4 (vf_join 0 f) ++ be_enc 4 cnt ++ (if senc_keeps np cnt rs then raw else []))
   | LUuidUnk u p => Ok (u ++ p)
   | LSgpd v f gt dlen dgdi items _ =>
       (* the reserved byte of a seig entry is written as 0: chunk 0 holds one byte per entry *)
@@ -1397,7 +1400,7 @@ Definition size_leaf (l : leaf) : N :=
   | LSidx v _ _ _ _ _ refs => 32 + (if v =? 0 then 0 else 8) + lenN refs * 12   (* repo commit ede563a; was 8*Version *)
   | LTrex _ _ _ _ _ _ _ => 32
   | LMdhd v _ _ _ _ _ _ => if v =? 1 then 44 else 32
-  | LHdlr _ _ _ _ name lacks => 8 + 24 + lenN name + 1 - (if lacks then 1 else 0)
+  | LHdlr _ _ _ ht name lacks => 8 + 20 + lenN ht + lenN name + 1 - (if lacks then 1 else 0)   (* len(HandlerType) since repo commit 3502d85 *)
   | LStts _ _ es => 16 + u32 (lenN es) * 8
   | LStsc _ _ es _ _ => 16 + lenN es * 12
   | LStsz _ _ uni num _ => if 0 <? uni then 20 else 20 + num * 4
@@ -1741,12 +1744,12 @@ Definition hdr_size_field (bs : list N) : N :=
 Definition leaf_guard (l : leaf) : bool :=
   match l with
   | LTrun _ f doff _ _ => negb (has f 1 && (doff =? 0))
-  (* a senc with sample_count 0 keeps its size (readBoxSize) but its data is not written back *)
-  | LSenc _ _ raw _ np => np || (lenN raw =? 0)
+  (* a decoded senc with sample_count 0 writes its data back since repo commit 954ff09 *)
+  | LSenc _ cnt raw rs np => senc_keeps np cnt rs || (lenN raw =? 0)
   (* an esds whose size fields are not in the encoder's form (e.g. an SLConfigDescriptor announcing 0 bytes) or that
      kept UnknownData *)
   | LEsds _ _ _ _ _ _ _ _ _ _ _ canon => canon
-  | LUuidSenc _ _ raw _ np => np || (lenN raw =? 0)
+  | LUuidSenc _ cnt raw rs np => senc_keeps np cnt rs || (lenN raw =? 0)
   | LSgpd _ _ _ _ _ _ canon => canon
   | _ => true
   end.
